@@ -44,7 +44,7 @@ DISPOSALS = ["read_all", "read_k_release", "release_unread", "drain", "close_rel
 CLOSE_ONLY = ("close_only", "with_block", "drop")
 
 SEND_FAULTS = ["epipe", "reset", "eprototype", "eio", "intr", "timeout"]
-RECV_FAULTS = ["timeout", "reset", "eof", "intr", "eio", "eagain"]
+RECV_FAULTS = ["timeout", "reset", "eof", "intr", "eio", "eagain", "corrupt"]
 CONN_FAULTS = ["refused", "timeout", "intr", "eio"]
 
 
